@@ -195,6 +195,43 @@ def _restore_one(args):
     return dict(violations=out, counts={"clause:C14.d": 1, "runs_ended_by_exception": 1}, outcome="restore%d" % k)
 
 
+def _realtime_one(args):
+    """a strategy uses the documented `simulated_datetime.real_time()` block and (at update k) raises inside it with
+    raise_errors False: the framework clock must be the publish time again in every later callback"""
+    k, raises = args
+    Scripted, _ = simx.classes()
+    h = Hooks()
+
+    class RT(Scripted):
+        def process_market_book(self, market, market_book):
+            if self.counts[market.market_id] == k:
+                self.counts[market.market_id] += 1
+                with market.flumine.simulated_datetime.real_time():
+                    if raises:
+                        raise KeyError("boom")
+                return
+            return super().process_market_book(market, market_book)
+
+    spec = simx.MarketSpec(book0=L.BOOK0)
+    real = _dt.datetime
+    w = simx.SimWorld([(spec, [[200, ["Q"]]] * 4)], [dict(script={(0, 3): [L.P("XB")]}, cls=RT, kw=dict(max_order_exposure=None, max_selection_exposure=None)), dict(script={}, name="other")], hooks=h)
+    w.run()
+    out = []
+    case = dict(real_time_at=k, raises=raises)
+    counts = {"clause:C14.c": 0, "clause:C14.d": 1, "real_time_blocks": 1}
+    for now, pt in h.clock:
+        counts["clause:C14.c"] += 1
+        if now != pt:
+            out.append(core.v("C14.c", (False, "none", "clock-after-real_time"), "utcnow() %s != publish time %s after a real_time() block%s" % (now, pt, " that raised" if raises else ""), case))
+            break
+    if w.run_exception is not None or not w.datetime_restored or _dt.datetime is not real:
+        out.append(core.v("C14.d", (False, "none", "restore-after-real_time"), "run exception %r, datetime restored %s" % (w.run_exception, w.datetime_restored), case))
+    orders = w.all_orders()
+    if k < 3 and (not orders or str(orders[0].date_time_created) != str(_dt.datetime.utcfromtimestamp(w.pts[spec.market_id][3] / 1e3))):
+        out.append(core.v("C14.c", (False, "none", "order-timestamp-after-real_time"), "order created at %s, update time %s" % (orders and orders[0].date_time_created, w.pts[spec.market_id][3]), case))
+    return dict(violations=out, counts=counts, outcome="rt%d%s" % (k, raises))
+
+
 def _dedup(vs, per_key=1):
     seen, out = {}, []
     for d in vs:
@@ -306,6 +343,9 @@ def run(tier):
     for r in core.pmap(_restore_one, rj, nworkers=1):
         rep.add_violations(r["violations"])
         rep.merge_counts(r["counts"])
+    for r in core.pmap(_realtime_one, [(k, raises) for k in (0, 1, 2) for raises in (False, True)], nworkers=1):
+        rep.add_violations(r["violations"])
+        rep.merge_counts(r["counts"])
     rep.sample(dict(zip(("seq", "inplay", "seconds_to_start", "max_inplay_seconds"), fj[len(fj) // 2])))
     n_det = _determinism(rep, thorough)
     rep.need("equal_pt_across_markets", "equal_pt_within_market", "merged_groups", "filtered_out", "delivered", "runs_ended_by_exception")
@@ -332,6 +372,8 @@ def replay(rep):
         r = _filter_one(([tuple(x) for x in c["seq"]], c["inplay"], c["seconds_to_start"], c["max_inplay_seconds"]))
     elif "raise_at" in c:
         r = _restore_one((c["raise_at"],))
+    elif "real_time_at" in c:
+        r = _realtime_one((c["real_time_at"], c["raises"]))
     else:
         print("determinism finding: re-run ./check C14")
         return 0
